@@ -121,7 +121,7 @@ fn many_tasks(rep: &Report, n: usize) {
 /// (create, change, purge again), meets a server that offers a snapshot: it holds data, so the
 /// snapshot must not replace it - afterwards it equals the replay of the chain like everyone else.
 /// Run on both storages (their `is_empty` implementations are separate code).
-fn pending_only_replica(rep: &Report) {
+pub fn pending_only_replica(rep: &Report) {
     use crate::world::mserver::{ChainState, MServer};
     use crate::world::proxy::Ctl;
     use crate::world::replicas::{observe, tasks_str, tid, with_replica};
